@@ -98,6 +98,8 @@ def consuming(v):
 def cnst_stats(state):
     """per constraint: sum and max of w*v, max of v*p and of w*v*p over enabled elements with w>0, counted concurrency"""
     st = {c: dict(sum=0.0, mx=0.0, maxshare=0.0, maxwshare=0.0, counted=0, enabled=0) for c in state['cn']}
+    # maxwshare: BMF's share = max_consumption_weight * value * penalty ("due to subflows, compare with the maximum
+    # consumption": after repeated expands on one constraint the largest single contribution counts, bmf.cpp)
     for vid in sorted(state['vr']):
         v = state['vr'][vid]
         if v['pen'] <= 0:
@@ -112,7 +114,7 @@ def cnst_stats(state):
                 s['sum'] += u
                 s['mx'] = max(s['mx'], u)
                 s['maxshare'] = max(s['maxshare'], v['value'] * v['pen'])
-                s['maxwshare'] = max(s['maxwshare'], u * v['pen'])
+                s['maxwshare'] = max(s['maxwshare'], v['mw'][c] * v['value'] * v['pen'])
     return st
 
 
@@ -206,7 +208,8 @@ def check_maxmin_fair(state):
 
 def check_bmf_fair(state):
     """C16, bmf: every consuming variable below its bound gets the largest penalty-weighted share (w*v*p: its share of
-    the resource, weighted by its penalty) on at least one saturated constraint. Tolerances are absolute+relative since
+    the resource, weighted by its penalty; w = the largest single expand on that constraint, which is what BMF documents
+    for sub-flows, = the weight when there was one expand) on at least one saturated constraint. Tolerances are absolute+relative since
     BmfSolver::is_bmf compares with an absolute sg_precision_workamount."""
     out = []
     st = cnst_stats(state)
@@ -226,7 +229,8 @@ def check_bmf_fair(state):
             cc = state['cn'][c]
             cap = capacity_of(cc)
             used = st[c]['mx'] if cc['pol'] == 'F' else st[c]['sum']
-            if used >= cap - tol(cap) and w * v['value'] * v['pen'] >= st[c]['maxwshare'] - tol(st[c]['maxwshare']):
+            if used >= cap - tol(cap) and \
+                    v['mw'][c] * v['value'] * v['pen'] >= st[c]['maxwshare'] - tol(st[c]['maxwshare']):
                 ok = True
                 break
         if not ok:
@@ -236,7 +240,7 @@ def check_bmf_fair(state):
                     cc = state['cn'][c]
                     why.append('c%d[%s used %.9g/%.9g mine %.9g max %.9g]' %
                                (c, cc['pol'], st[c]['mx'] if cc['pol'] == 'F' else st[c]['sum'], capacity_of(cc),
-                                w * v['value'] * v['pen'], st[c]['maxwshare']))
+                                v['mw'][c] * v['value'] * v['pen'], st[c]['maxwshare']))
             out.append(('bmf-unfair', 'variable %d value %.17g penalty %g bound %g: no saturated constraint where its '
                         'weighted share is the largest: %s' % (vid, v['value'], v['pen'], v['bound'], ' '.join(why))))
     return out
